@@ -67,7 +67,7 @@ def genesis (legacy : Bool) : State :=
   let bal : List ((String × String) × Nat) :=
     accounts.map (fun x => ((x, "nria"), big)) ++
     (["a0", "a1", "a2", "a3"].flatMap fun x => [UTIA, "xtok", UOSMO].map fun a => ((x, a), seeded)) ++
-    [(("r1", "xtok"), U128_MAX - 1000)]
+    [(("r1", "xtok"), U128_MAX - 1000), (("a4", "xtok"), U128_MAX)]
   { postAspen := !legacy, postBlackburn := !legacy,
     bal := bal, sudo := "s", ibcSudo := "i", relayers := ["i"],
     fees := [(.rollup, ⟨1, 1001⟩), (.transfer, ⟨2, 1002⟩), (.ics20, ⟨3, 1003⟩), (.initBridge, ⟨4, 1004⟩),
@@ -217,6 +217,7 @@ structure St where
   blockMint : List (String × Int) := []
   blockFeeEvents : List (String × Nat) := []   -- Σ tx.fees events per asset in this block
   blockDepEvents : Nat := 0
+  blockValOps : List (String × Nat) := []      -- successful validator updates of this block, in order
   -- history (monitors)
   wdCarriers : List (String × String) := []    -- (bridge, id) of successful carriers
   valSet : List (String × Nat) := []           -- CometBFT's view: genesis set folded with updates
@@ -274,7 +275,7 @@ def run (lines : Array String) : Driver.Report := Id.run do
       match st.model with
       | some m =>
         modelOut := s!"ok - | {dump m}"
-        st := { st with blockStart := st.ipre, blockMint := [], blockFeeEvents := [], blockDepEvents := 0 }
+        st := { st with blockStart := st.ipre, blockMint := [], blockFeeEvents := [], blockDepEvents := 0, blockValOps := [] }
       | none => pure ()
     | "ledger" :: "tx" :: signer :: nonce :: acts :: [] =>
       match st.model, nonce.toNat?, parseActions acts with
@@ -518,6 +519,10 @@ def run (lines : Array String) : Driver.Report := Id.run do
                 r := r.addMonitor "withdrawal_once" n line s!"withdrawal event {c.2} of bridge {c.1} honoured a second time"
               st := { st with wdCarriers := c :: st.wdCarriers }
             | none => pure ()
+          for act in actions do
+            match act with
+            | .valUpdate k p => st := { st with blockValOps := st.blockValOps ++ [(k, p)] }
+            | _ => pure ()
           -- C18 escrow bookkeeping
           for act in actions do
             match act with
@@ -590,7 +595,17 @@ def run (lines : Array String) : Driver.Report := Id.run do
             if post.cnt ≠ "pre" && post.cnt.toNat? ≠ some post.vals.length then
               r := r.addMonitor "validator_mirror" n line s!"validator count {post.cnt} but {post.vals.length} validators stored"
           | .error e =>
-            r := r.addMonitor "validator_updates_applicable" n line s!"CometBFT cannot apply the returned updates: {e}"
+            -- classify the history that led here (known findings are matched on this text)
+            let removed := (ups.filter (·.2 = 0)).map (·.1)
+            let addedThenRemoved := removed.filter fun k =>
+              (lookup st.valSet k).isNone && st.blockValOps.any (fun (k', p) => k' = k && p > 0)
+            let removalsInBlock := (st.blockValOps.filter (·.2 = 0)).length
+            let why :=
+              if !addedThenRemoved.isEmpty then s!" [{addedThenRemoved} added and removed within this block]"
+              else if post.cnt = "pre" && removalsInBlock ≥ 2 && e.startsWith "validator set would" then
+                s!" [{removalsInBlock} removals in one pre-Aspen block, each checked against the start-of-block set]"
+              else ""
+            r := r.addMonitor "validator_updates_applicable" n line s!"CometBFT cannot apply the returned updates: {e}{why}"
             -- resynchronise so that one finding is reported once
             st := { st with valSet := post.vals }
       | _ => pure ()
